@@ -14,7 +14,7 @@ import (
 func init() {
 	register(Property{ID: "C44", Level: "other", Run: runC44,
 		Technique: "static analysis: must-pass-through path conditions on api.paginate, who-may-call of paginate2, interval propagation (seeded by the strconv.ParseUint bit size, the default constants and the zero rejection) through paginate2's bound arithmetic for each released int width, structural shape of the Slice bounds and of the page count (go/ssa)",
-		Text:      "Decides: (1) api.paginate reaches paginate2 only when each supplied parameter parsed without error and itemsPerPage is non-zero, and returns a nil error only with paginate2's result; (2) paginate2 is called only from there, so its parameters range over itemsPerPage in [1, 2^31-1], page in [0, 2^31-1]; (3) for every released int width (64 bit: amd64/arm64, 32 bit: arm) every +,* of paginate2's bound arithmetic and every conversion in paginate stays inside its type, and every divisor excludes zero; (4) the slice set back is ritems.Slice(min(page*ipp, len), min((page+1)*ipp, len)) of the same reflect value whose Len was taken, with page>=0, ipp>=1 (which gives consecutive, at most ipp long, in-range, empty-past-the-end pages when (3) holds); (5) the page count is len/ipp, plus one exactly when len%ipp != 0, and 0 for the empty list; (6) every caller passes a pointer to a slice and writes its 200 response only after paginate returned a nil error. Not decided: the concatenation identity as a value-level statement beyond these bounds; reflect's own behaviour.",
+		Text:      "Decides: (1) api.paginate reaches paginate2 only when each supplied parameter parsed without error and itemsPerPage is non-zero, and returns a nil error only with paginate2's result; (2) paginate2 is called only from there, so its parameters range over itemsPerPage in [1, 2^31-1], page in [0, 2^31-1]; (3) for every released int width (64 bit: amd64/arm64, 32 bit: arm) every +,* of paginate2's bound arithmetic and every conversion in paginate stays inside its type, and every divisor excludes zero; (4) the slice set back is ritems.Slice(min(page*ipp, len), min((page+1)*ipp, len)) of the same reflect value whose Len was taken, with page>=0, ipp>=1 (which gives consecutive, at most ipp long, in-range, empty-past-the-end pages when (3) holds); (5) the page count is len/ipp, plus one exactly when len%ipp != 0, and 0 for the empty list; (6) every caller passes a pointer to a slice and writes its 200 response only after paginate returned a nil error; (7) every caller hands the request's query parameter named itemsPerPage to the paginate parameter that becomes the page size and the one named page to the one that becomes the page index (both are strings, only the data flow distinguishes them). Not decided: the concatenation identity as a value-level statement beyond these bounds; reflect's own behaviour.",
 		Note:      "trusted: go/types+go/ssa, strconv.ParseUint's documented range for a bit size, reflect.Value.{Len,Slice,Set} semantics, types.SizesFor(gc, GOARCH) for the released architectures listed in scripts/binaries.mk"})
 	addMutants(
 		Mutant{"C44", "zero-items-per-page-accepted", "internal/api/paginate.go",
@@ -39,6 +39,11 @@ func init() {
 			"	pageCount, err := paginate(&pathNames, ctx.Query(\"itemsPerPage\"), ctx.Query(\"page\"))\n	if err != nil {\n		a.writeError(ctx, http.StatusBadRequest, err)\n	}", "C44.caller.reject"},
 		Mutant{"C44", "parse-error-returns-nil", "internal/api/paginate.go",
 			"		tmp, err := strconv.ParseUint(itemsPerPageStr, 10, 31)\n		if err != nil {\n			return 0, err\n		}", "		tmp, err := strconv.ParseUint(itemsPerPageStr, 10, 31)\n		if err != nil {\n			return 0, nil\n		}", "C44.reject.nil_error_only_with_result"},
+		// round 3: one of the fifteen handlers hands the two query strings over in the wrong order / reads the same one twice
+		Mutant{"C44", "handler-query-strings-swapped", "internal/api/api_recordings.go",
+			"paginate(&pathNames, ctx.Query(\"itemsPerPage\"), ctx.Query(\"page\"))", "paginate(&pathNames, ctx.Query(\"page\"), ctx.Query(\"itemsPerPage\"))", "C44.caller.query_role"},
+		Mutant{"C44", "handler-same-query-twice", "internal/api/api_srt.go",
+			"paginate(&data.Items, ctx.Query(\"itemsPerPage\"), ctx.Query(\"page\"))", "paginate(&data.Items, ctx.Query(\"itemsPerPage\"), ctx.Query(\"itemsPerPage\"))", "C44.caller.query_role"},
 	)
 }
 
@@ -67,6 +72,68 @@ func asParseUint(v ssa.Value) *parseUintEdge {
 	return &parseUintEdge{call, ex, call.Call.Args[0], b.Int64()}
 }
 
+// queryKeysR3c44 resolves a string value to the names of the gin query
+// parameters it is read from: (*gin.Context).Query(key), DefaultQuery(key, _),
+// GetQuery(key)#0, through phis and through the parameters of new helpers
+// (resolved at their call sites). ok is false when some source is anything else.
+func queryKeysR3c44(v ssa.Value, depth int) (keys []string, ok bool) {
+	if depth > 6 {
+		return nil, false
+	}
+	v = stripConv(v)
+	if u, isU := v.(*ssa.UnOp); isU && u.Op == token.MUL {
+		if a, isA := u.X.(*ssa.Alloc); isA {
+			if sv := singleStore(a); sv != nil {
+				return queryKeysR3c44(sv, depth+1)
+			}
+		}
+		return nil, false
+	}
+	switch x := v.(type) {
+	case *ssa.Phi:
+		ok = true
+		for _, e := range x.Edges {
+			ks, o := queryKeysR3c44(e, depth+1)
+			keys = append(keys, ks...)
+			ok = ok && o
+		}
+		return keys, ok
+	case *ssa.Parameter:
+		info := helperIdx[x.Parent()]
+		k := paramIndex(x)
+		if info == nil || k < 0 {
+			return nil, false
+		}
+		ok = len(info.sites) > 0
+		for _, site := range info.sites {
+			if k >= len(site.Call.Args) {
+				return nil, false
+			}
+			ks, o := queryKeysR3c44(site.Call.Args[k], depth+1)
+			keys = append(keys, ks...)
+			ok = ok && o
+		}
+		return keys, ok
+	case *ssa.Extract:
+		cl, isCall := x.Tuple.(*ssa.Call)
+		if !isCall || x.Index != 0 || calleeName(&cl.Call) != "(*github.com/gin-gonic/gin.Context).GetQuery" || len(cl.Call.Args) != 2 {
+			return nil, false
+		}
+		s, isS := constString(cl.Call.Args[1])
+		return []string{s}, isS
+	case *ssa.Call:
+		switch calleeName(&x.Call) {
+		case "(*github.com/gin-gonic/gin.Context).Query", "(*github.com/gin-gonic/gin.Context).DefaultQuery":
+			if len(x.Call.Args) < 2 {
+				return nil, false
+			}
+			s, isS := constString(x.Call.Args[1])
+			return []string{s}, isS
+		}
+	}
+	return nil, false
+}
+
 func phiEdges(v ssa.Value) []ssa.Value {
 	if ph, ok := v.(*ssa.Phi); ok {
 		return ph.Edges
@@ -83,7 +150,7 @@ func runC44(c *Ctx) {
 		"C44.seed.*: paginate2 has exactly one call site and is not used as a value, its arguments are int(ParseUint(itemsPerPageStr))|const and int(ParseUint(pageStr))|const. " +
 		"C44.no_overflow / C44.divisor_nonzero: E8 interval propagation through every integer +,-,*,conversion,/,% of paginate and paginate2 for int = 64 and 32 bits. " +
 		"C44.slice.*: the reflect Slice bounds are min(page*ipp, L), min((page+1)*ipp | page*ipp+ipp, L) with L = Len of the very value sliced and Set. " +
-		"C44.page_count: L/ipp (+1 iff L%ipp != 0), 0 iff L == 0. C44.caller.*: 15 handlers pass &slice and answer 200 only after a nil error. " +
+		"C44.page_count: L/ipp (+1 iff L%ipp != 0), 0 iff L == 0. C44.caller.*: 15 handlers pass &slice and answer 200 only after a nil error. C44.caller.query_role: at each of them paginate's itemsPerPage/page string arguments are (*gin.Context).Query/DefaultQuery/GetQuery of the constant keys itemsPerPage / page respectively (through locals, phis and new helpers). " +
 		"Not decided: value-level concatenation identity, reflect internals."
 	c.Assume = []string{
 		"strconv.ParseUint(s, 10, b) returns a value in [0, 2^b-1] when err == nil",
@@ -442,6 +509,25 @@ func runC44(c *Ctx) {
 		c.checkMustPassPred(p, fn, "C44.caller.reject", fnName(fn)+": (*gin.Context).JSON response only after paginate returned a nil error",
 			callTo("(*github.com/gin-gonic/gin.Context).JSON"),
 			func(l Lit) bool { return l.Pos && atomMatch(errNil, l.Atom) })
+		// (7) the request parameter named itemsPerPage is the one that reaches
+		// the page size (paginate's parameter that C44.seed.arg_source ties to
+		// paginate2's divisor / slice stride), the one named page reaches the
+		// page index. Both are plain strings: only the data flow tells them apart.
+		for k, ai := range args {
+			if k+1 >= len(cl.Call.Args) {
+				continue
+			}
+			keys, ok := queryKeysR3c44(cl.Call.Args[k+1], 0)
+			good := ok && len(keys) > 0
+			for _, q := range keys {
+				if q != ai.name {
+					good = false
+				}
+			}
+			c.Check("C44.caller.query_role", fmt.Sprintf("%s: paginate argument %d (%s) is the request's query parameter %q", fnName(fn), k+1, ai.name, ai.name),
+				good, p.Pos(cl.Pos()), fmt.Sprintf("got %s (query parameters %q, resolved=%v): the value a client sends as %q must be the one parsed as %s", desc(cl.Call.Args[k+1]), keys, ok, ai.name, ai.name))
+		}
 	}
+	c.Floor("C44.caller.query_role", 2*len(psites), 30)
 	c.Floor("C44.caller", len(psites), 15)
 }
